@@ -1,6 +1,7 @@
 use crate::engine::*;
 use serde_json::Value;
 
+pub mod c01;
 pub mod c03;
 pub mod c04;
 
@@ -12,6 +13,7 @@ pub struct Prop {
 
 pub fn all() -> Vec<Prop> {
     vec![
+        Prop { info: &c01::INFO, run: c01::run, replay: c01::replay },
         Prop { info: &c03::INFO, run: c03::run, replay: c03::replay },
         Prop { info: &c04::INFO, run: c04::run, replay: c04::replay },
     ]
